@@ -4,7 +4,7 @@
 #include "OSAttribute.h"
 #include "shared.h"
 #define MK long f_store[(sizeof(File) + 7) / 8 + 1]; File* f = (File*)(void*)&f_store[0]; f->valid = IN(valid) != 0; f->stream = (FILE*)(void*)&f_store[0]; \
-	OUT(pos0) = FST(POS); OUT(len0) = FST(LEN); for (int i = 0; i < VP_FILE_MAX; i++) vp_in_file0[i] = vp_in_file[i]
+	OUT(pos0) = FST(POS); OUT(len0) = FST(LEN); memcpy(vp_in_file0, vp_in_file, VP_FILE_MAX)
 
 extern "C" void vp_writeMechSet(void)
 {
